@@ -104,7 +104,7 @@ PROPS = {
         trusted=STD_TRUST,
     ),
     "C19": dict(
-        units=["parse"],
+        units=["parse", "serde"],
         level="proof",
         min_obligations=60,
         replay_family="c19",
@@ -115,7 +115,8 @@ PROPS = {
                     "are proved equal to the position of the consumed bytes [+ the byte under the cursor] for all three sources), and lemma_loc_in_bounds shows such a "
                     "position has 1 <= line <= 1 + number of newlines and a column that counts bytes since the start of its line with no newline in between (so it never "
                     "exceeds that line's length); (conversion) From<Error> for io::Error returns the wrapped error for Io, kind InvalidData for Syntax, UnexpectedEof for "
-                    "Eof, its unreachable!() is dead; Error::classify == the documented category table; (truncation, at the six lexer sites the property names) when the "
+                    "Eof, its unreachable!() is dead; Error::classify == the documented category table; the serde companion crate's error type wraps a parse error unchanged "
+                    "and converts to io::Error the same way (unit serde: the wrapped read failure is handed to lexpr's own conversion, its unreachable!() is dead); (truncation, at the six lexer sites the property names) when the "
                     "input ends inside #nil/#u8/#vu8 (expect_ident), before the first digit (parse_num_literal), right after the decimal point (parse_decimal), after the "
                     "exponent marker or its sign (parse_exponent), or inside a UTF-8 sequence (decode_utf8_sequence), a non-I/O error is EOF-category; (truncation right after "
                     "an opening token) when nothing but trivia follows where a datum or a closing delimiter must come - after `(` `[` `#(` `#u8(` (parse_list(_meta), "
